@@ -36,6 +36,8 @@ DOCS = [
     "## **Bold**\n\nSentence one. Sentence two is longer than one. Three!\n\n* * *\n\nlast\\\nline\n",
     "1) first\n2) second\n\n10. ten\n11. eleven\n\n<div>inline html</div> and <span>x</span>\n",
     "intro text\n\n~~~python title\ndef f():\n    return 1\n~~~\n\nafter the tilde fence\n\n````md\n```\ninner\n```\n````\n",
+    "Spaced {% a %} {% /a %} tags, <!-- x --> <!-- /x --> comments and {{ v }} {# c #} here; adjacent ones: {% b %}{% /b %} x.\n",
+    "Only spaced {% a %} {% /a %} and <!-- x --> <!-- /x --> here.\n",
     # dense documents: most of the formatting time is spent in one construct, so that fine-grained interleavings of two such calls
     # meet inside it (per-construct hand-off state: fence info, table alignment, reference / footnote tables)
     "".join(f"p{i}\n\n```a{i}\ncode a{i}\n```\n\n" for i in range(8)),
@@ -44,7 +46,7 @@ DOCS = [
     "".join(f"| g{i} |\n|:-:|\n| {i} |\n\n" for i in range(6)) + "".join(f"[r{i}]: http://b.example/{i} \"t\"\n" for i in range(6)) + "\nsee " + " ".join(f"[r{i}]" for i in range(6)) + " and" + "".join(f" n[^{i}]" for i in range(4)) + "\n\n" + "".join(f"[^{i}]: note {i}\n\n" for i in range(4)),
     "",
 ]
-DENSE_PAIRS = [(12, 13), (13, 12), (14, 15), (15, 14), (12, 15), (1, 11)]       # indices into DOCS
+DENSE_PAIRS = [(14, 15), (15, 14), (16, 17), (17, 16), (14, 17), (1, 11)]       # indices into DOCS
 OPTS = [
     dict(width=20), dict(width=40, semantic=False), dict(width=0), dict(width=30, smartquotes=True, ellipses=True),
     dict(width=25, list_spacing="loose"), dict(width=25, list_spacing="tight", cleanups=False), dict(width=30, plaintext=True),
